@@ -34,11 +34,13 @@ PROPS["C09"] = dict(
                  "a peer AS that occurs only in confederation segments; the own AS in the path towards iBGP peers; ORIGINATOR_ID = own router id or own cluster id received over eBGP; the global AS in a "
                  "path received on a local-as / confederation-identifier session",
                  "reflection client -> non-client must carry ORIGINATOR_ID and the cluster id (RFC 4456 6 + 8; the cluster id is the client's configured one or the router id)",
-                 "the local cluster ids of the router are those configured on its RR-client neighbours (default: router id)"],
+                 "the local cluster-id of a route received on an RR-client session is the id configured for that session (default: router id); on a non-client iBGP session it is the "
+                 "router's cluster id when all its RR-client neighbours share one; a cluster id configured only on another neighbour of a router that reflects under several ids is left open "
+                 "(RFC 4456 knows one CLUSTER_ID per reflector, gobgp configures it per neighbour)"],
     must_count=["nontrivial_exports", "snapshots_compared", "attribute_checks", "inbound_updates", "hasOwnASLoop_calls", "race_cases", "concurrent_exports", "exports_with_old_best",
                 "stored:root", "stored:clone", "stored:overlay", "decision:advertised",
                 "decision:suppressed:back-to-source-router", "decision:suppressed:nonclient-to-nonclient", "decision:suppressed:own-cluster-id-to-client", "decision:suppressed:peer-as-in-path",
-                "inbound:clean", "inbound:own-as-beyond-allow-own-as", "inbound:own-as-within-allow-own-as", "inbound:own-router-id-as-originator", "inbound:own-cluster-id",
+                "inbound:clean", "inbound:own-as-beyond-allow-own-as", "inbound:own-as-within-allow-own-as", "inbound:own-router-id-as-originator", "inbound:own-cluster-id", "inbound:own-cluster-id-nonclient-session",
                 "rule:prepend-local-as", "rule:prepend-confed-seq", "rule:confed-id-towards-non-member", "rule:remove-private-as:all", "rule:remove-private-as:replace", "rule:replace-peer-as",
                 "rule:local-as", "rule:allow-as-path-loop-local", "rule:nexthop:self", "rule:nexthop:unchanged", "rule:nexthop:local-route-self", "rule:local-pref-removed", "rule:local-pref-default",
                 "rule:foreign-med-removed", "rule:rr-attributes-removed", "rule:reflect-to-client", "rule:reflect-client-to-nonclient", "rule:rs-transparent", "rule:ibgp-aspath-unchanged"]
